@@ -91,6 +91,7 @@ func (w *wd) block(what string) *chain.BlockResult {
 		w.dirty = false
 	}
 	w.rec.Op(map[string]any{"op": "block", "height": w.c.Height + 1, "what": what, "txs": w.c.PendingCount()})
+	w.c.Log.Drain() // lines of direct keeper / governance calls between blocks do not belong to the block
 	br := w.c.NextBlock()
 	if br.Panic != "" || br.Err != nil {
 		w.fail("FinalizeBlock failed during %s: %v %.400s", what, br.Err, br.Panic)
